@@ -97,6 +97,20 @@ func (r *relay) onFrame(idx int, raw []byte) ([][]byte, bool) {
 			fire("frame-inserted")
 			return [][]byte{raw, refcodec.MakeFrame(end, nil)}, false
 		}
+	case "insert-junk-flag11", "insert-junk-flag255", "insert-junk-oversize", "insert-junk-negative":
+		// a bare 5-byte header no receiver can accept (impossible end flag, or an impossible length with
+		// nothing behind it) slipped in before the frame: whatever error it causes on the way must not
+		// be swallowed in a way that lets the handshake complete over matching digests
+		if idx == f.I {
+			junk := map[string][]byte{
+				"insert-junk-flag11":   {11, 0, 0, 0, 0},
+				"insert-junk-flag255":  {255, 0, 0, 0, 0},
+				"insert-junk-oversize": {1, 0x7f, 0xff, 0xff, 0xff},
+				"insert-junk-negative": {0, 0xff, 0xff, 0xff, 0xff},
+			}[f.Kind]
+			fire("junk-header-inserted")
+			return [][]byte{junk, raw}, false
+		}
 	case "split":
 		if idx == f.I && len(raw) > 6 {
 			pl := raw[5:]
@@ -342,7 +356,8 @@ func gen(g *scen.Gen) {
 						}
 					}
 				}
-				for _, kind := range []string{"remove", "insert-empty-partial", "insert-empty-complete", "append-empty-partial", "append-empty-complete", "split", "merge"} {
+				for _, kind := range []string{"remove", "insert-empty-partial", "insert-empty-complete", "append-empty-partial", "append-empty-complete", "split", "merge",
+				"insert-junk-flag11", "insert-junk-flag255", "insert-junk-oversize", "insert-junk-negative"} {
 					if (kind == "append-empty-partial" || kind == "append-empty-complete") && i == len(bi.ClearLens[dir])-1 {
 						// after the last cleartext frame of a direction = before its first protected
 						// frame: the receiver meets it in the protected phase, which is C02's subject
